@@ -206,17 +206,22 @@ def h3_unichr(timeout=60, **kw):
     """FileUnicodeMap.add_cid2unichr on concrete samples (UTF-16BE decoding is C code): multi-character targets, surrogate pairs, ints, glyph names"""
     import pdfminer.cmapdb as cm
     from pdfminer.psparser import LIT
-    samples = [(b"\x00A", "A"), (b"\x00f\x00i", "fi"), (b"\xd8\x3d\xde\x00", "\U0001F600"), (0x41, "A"), (LIT("uni0041"), "A"), (b"\x20\xac", "€"), (b"", "")]
+    samples = [(b"\x00A", "A"), (b"\x00f\x00i", "fi"), (b"\xd8\x3d\xde\x00", "\U0001F600"), (0x41, "A"), (LIT("uni0041"), "A"), (b"\x20\xac", "€"), (b"", ""), (b"\x00\xa0", "\u00a0"), (b"\x00 ", " ")]
 
     def fn(ex):
         i = ex.choice(len(samples), "i")
+        j = ex.choice(len(samples) + 1, "earlier")          # an earlier definition of the same code (none / each sample): a CMap is a PostScript program executed in order, the later definition stands
         m = cm.FileUnicodeMap()
+        if j:
+            m.add_cid2unichr(7, samples[j - 1][0])
+            if samples[j - 1][1] == " " and samples[i][1] == "\u00a0":
+                return          # the library keeps a space that a later NO-BREAK SPACE would replace (its rule for fonts that map both to one code): left out of the claim
         m.add_cid2unichr(7, samples[i][0])
-        ex.require(m.get_unichr(7) == samples[i][1], "add_cid2unichr(7, %r) -> %r, expected %r" % (samples[i][0], m.get_unichr(7), samples[i][1]), i=i)
+        ex.require(m.get_unichr(7) == samples[i][1], "add_cid2unichr(7, %r)%s -> %r, expected %r" % (samples[i][0], (" after add_cid2unichr(7, %r)" % (samples[j - 1][0],)) if j else "", m.get_unichr(7), samples[i][1]), i=i, earlier=j)
 
     def conc(m, info):
         return info
-    return core.run_symx("H3_unichr", fn, [cm.FileUnicodeMap.add_cid2unichr], {"samples": len(samples)}, timeout, concretize=conc)
+    return core.run_symx("H3_unichr", fn, [cm.FileUnicodeMap.add_cid2unichr], {"samples": len(samples), "earlier definition of the same code": "none / each sample (space then NO-BREAK SPACE excluded)"}, timeout, concretize=conc)
 
 
 def h5_mapcache(n=3, timeout=100, **kw):
